@@ -12,7 +12,7 @@ RULE = ("random rulesets (ruleset delay in {default 15,0,1,2,5}, per-action post
         "async pauses and STOPs that spend virtual time inside run(); tick steps drawn from {0,1ns,1s-1ns,1s,1s+1ns,2s,3s,5s,15s} so "
         "ticks land exactly at, 1ns before and 1ns after t+d; per ruleset instance the oracle recomputes pause_until = STOP time + "
         "(action's own delay if it has one else the ruleset's) and requires: no action in [t,t+d), a chain starts at the first tick "
-        ">= t+d on which a group fires, detectors/preruns keep running, other rulesets unaffected; plus the same window through the five real kill plugins in dry mode (own and ruleset delays), where the pause is set by the plugin via getInvokingRuleset(). "
+        ">= t+d on which a group fires, detectors/preruns keep running, other rulesets unaffected; plus the same window through the five real kill plugins in dry mode (own and ruleset delays), where the pause is set by the plugin via getInvokingRuleset(), incl. always_continue kills followed by a scripted STOP/CONTINUE with or without its own delay. "
         "non-trivial = >=1 STOP with d>0 followed by >=1 tick blocked by the pause and >=1 later chain start; distinct by config+script+steps hash")
 ASSUMPTIONS = c02.ASSUMPTIONS
 OWN = {"C05"}
@@ -72,7 +72,15 @@ def real_cases(seed, n):
             args["post_action_delay"] = str(own)
         rdelay = rng.choice([None, "0", "1", "3", "6"])
         extra = {} if rdelay is None else {"post_action_delay": rdelay}
+        # always_continue: the kill plugin does not stop the chain, so it is the later STOP (if any) whose delay counts
+        always, post_delay, post_script = rng.random() < 0.35, None, None
+        if always:
+            args["always_continue"] = "true"
+            post_script = rng.choice(["S", "S", "C"])
+            post_delay = rng.choice([None, None, 0, 1, 3])
         cfg = KG.kill_config(plugin, args, extra)
+        if always and post_delay is not None:
+            cfg["rulesets"][0]["actions"][2]["args"]["post_action_delay"] = str(post_delay)
         if rdelay is None:
             cfg["rulesets"][0].pop("post_action_delay", None)
         nticks = rng.randint(10, 16)
@@ -86,7 +94,10 @@ def real_cases(seed, n):
             ticks.append({"step_ns": rng.choice(STEPS), "ops": ops})
         cid = "C05r-%d-%d" % (seed, i)
         scn = KG.base_scn(cid, cgs, cfg, ticks=ticks)
-        yield core.Case(cid, [scn], {"real": True, "plugin": plugin, "own": own, "ruleset": 15 if rdelay is None else int(rdelay)})
+        if always:
+            scn["scripts"] = {"post": [post_script] * (nticks + 2)}
+        yield core.Case(cid, [scn], {"real": True, "plugin": plugin, "own": own, "ruleset": 15 if rdelay is None else int(rdelay),
+                                     "always": always, "post": post_script, "post_delay": post_delay})
 
 
 _cases_scripted = cases
@@ -107,7 +118,11 @@ def judge_real(case, results):
         v.bad("crash:" + cr[0], cr[1], cr[2])
         return v
     m = case.meta
-    d = (m["own"] if m["own"] is not None else m["ruleset"]) * 10**9
+    if m.get("always"):
+        # the plugin returned CONTINUE; the scripted action after it decides: STOP with its own delay or the ruleset's, or no STOP at all
+        d = 0 if m["post"] != "S" else (m["post_delay"] if m["post_delay"] is not None else m["ruleset"]) * 10**9
+    else:
+        d = (m["own"] if m["own"] is not None else m["ruleset"]) * 10**9
     invs = KT.parse(res.events)
     times = {}
     for e in res.events:
@@ -120,10 +135,10 @@ def judge_real(case, results):
         started = inv.pre is not None
         if pause_until is not None:
             if now < pause_until and started:
-                v.bad("action-in-pause", "real-plugin", "%s (own delay %s, ruleset %s): chain started at tick %d t=%d, pause lasts until %d" % (m["plugin"], m["own"], m["ruleset"], inv.tick, now, pause_until))
+                v.bad("action-in-pause", "real-plugin", "%s (own delay %s, ruleset %s, always_continue+post %s): chain started at tick %d t=%d, pause lasts until %d" % (m["plugin"], m["own"], m["ruleset"], (m.get("always"), m.get("post"), m.get("post_delay")), inv.tick, now, pause_until))
                 return v
             if now >= pause_until and not started and not (inv.tick > 0 and invs[inv.tick - 1].ret == "A"):
-                v.bad("chain-must-start", "real-plugin", "%s (own delay %s, ruleset %s): detectors fire, pause ended at %d, but no chain at tick %d t=%d" % (m["plugin"], m["own"], m["ruleset"], pause_until, inv.tick, now))
+                v.bad("chain-must-start", "real-plugin", "%s (own delay %s, ruleset %s, always_continue+post %s): detectors fire, pause ended at %d, but no chain at tick %d t=%d" % (m["plugin"], m["own"], m["ruleset"], (m.get("always"), m.get("post"), m.get("post_delay")), pause_until, inv.tick, now))
                 return v
             if now < pause_until:
                 blocked += 1
